@@ -311,6 +311,21 @@ def dispatch (memo : QuadMemo) (cmd : String) (a : Array J) : Option (R × QuadM
   | "linalg.inv" => pure' do
       let m ← (arg 0).mat?
       return (exceptOfOption .other (invert? m)).map jm
+  | "linalg.solve" => pure' do
+      let m ← (arg 0).mat?; let f ← (arg 1).mat?
+      return (exceptOfOption .other (solve? m f)).map jm
+  | "linalg.lstsq" => pure' do
+      let m ← (arg 0).mat?
+      return (exceptOfOption .other (lstsq? m)).map jm
+  | "ops.insonce" => pure' do
+      let k ← kvOf (arg 0); let nd ← (arg 1).rat?
+      return do let k ← k; return jm (← insOnce k nd)
+  | "ops.elevbez" => pure' do
+      let p ← (arg 0).nat?; let t ← (arg 1).nat?
+      return .ok (jm (elevBezier p t))
+  | "ops.derivmat" => pure' do
+      let k ← kvOf (arg 0)
+      return do let k ← k; return jm (derivSplineMat k)
   | "quad.nodes" => pure' do
       let closed ← (arg 0).nat?; let n ← (arg 1).nat?
       return .ok (jv (if closed == 1 then closedLinspace n else openLinspace n))
